@@ -46,6 +46,26 @@ DETECTED = {
     'C18-d': ['C18: H18c references-followed-to-depth-3-own-values-first with symbolic values (added after the miss)'],
     'C19-d': ['C19: H19a repeated-prediction-is-the-same, H19a-full model-left-idle'],
     'C20-d': ['C20: H20c running-process-still-collected (added after the miss)'],
+    'C01-e': ['C01: H01g one-master-per-group with one failing XML-RPC (added after the miss)'],
+    'C02-e': ['C02: H02a documented-edge'],
+    'C03-e': ['C03: H03b nothing-requested-after-required-failure with the no_resource behaviour (added after the miss)'],
+    'C04-e': ['C04: H04b node-load-with-requests'],
+    'C05-e': ['C05: H05-1 / H05-2 conflict-list'],
+    'C06-e': ['C06: H06f lost-process-running-once-on-a-survivor (added after the miss)'],
+    'C07-e': ['C07: H07b silent-peer-invalidated-by-this-tick with the peer being the Master (added after the miss)'],
+    'C08-e': ['C08: H08c-distribution back-to-operation with proxy threads scheduled at once (added after the miss)'],
+    'C09-e': ['C09: H09-twice (added after the miss)'],
+    'C10-e': ['C10: H10 forced-state-published-with-reason with event_link (added after the miss)'],
+    'C11-e': ['C11: H11-n3 op:loss:state'],
+    'C12-e': ['C12: H12-race reported-location-is-true (actor-saw-observer-CHECKING)'],
+    'C13-e': ['C13: H13e nothing-handled-once-stopped (added after the miss)'],
+    'C14-e': ['C14: H14b whole-application-follows-strategy with an ignored program rule (added after the miss)'],
+    'C15-e': ['C15: H15a application-state'],
+    'C16-e': ['C16: H16f exception:KeyError, H16g'],
+    'C17-e': ['C17: H17 documented-fault-for-bad-parameter with wrong-type strategies (added after the miss)'],
+    'C18-e': ['C18: H18h (added after the miss)'],
+    'C19-e': ['C19: H19a prediction-changes-nothing with a forced state (added after the miss)'],
+    'C20-e': ['C20: H20a entity-series-aligned'],
 }
 for line in open(sys.argv[1]):
     m = re.match(r'(C\d\d-\w): without=\[(.*?)\] with=\[(.*?)\] suite=\[(.*)\]', line.strip())
